@@ -11,6 +11,9 @@ byte strings the same way (values below 0x100).
   utf8 <bytes>                     -> ok <str> | invalid
   write <prefix> <line> <outcome>  -> ok <topic> <payload> <qos> | transportFailed | transportError | foreign <Class>
   conn <outcome> <outcome>*        -> ok | transportError | transportFailed | foreign <Class>
+  hconn <prefix> <connect> <disconnect> <subscribe>*  -> res=<ok|Class> cleanup=<0|1> inplace=[<filter>*]
+                                      (`MQTTTransport.connect` over the documented hooks: outcomes of `_connect`, of
+                                       `_disconnect` in the clean-up and of the `_subscribe` call per filter, any class)
   tnew <n|w>                       -> state           (fresh transport; task not started / waiting)
   ev msg <topic> <bytes> | ev err | ev cancel | read  -> state
   qerr                             -> state           (`_receive_error` called directly: a queue arrival)
@@ -57,11 +60,16 @@ def encodeStr (s : Str) : String :=
 
 def exnName (c : PyExn) : String := (s!"{repr c}").replace "AioMySensors.PyExn." ""
 
+/-- Every class of the vocabulary by its Python name (the hooks and the aiomqtt calls may raise any of them). -/
 def parseExn : String → Option PyExn
-  | "MqttError" => some .MqttError | "OSError" => some .OSError | "RuntimeError" => some .RuntimeError
-  | "CancelledError" => some .CancelledError | "ValueError" => some .ValueError
-  | "UnicodeDecodeError" => some .UnicodeDecodeError | "KeyError" => some .KeyError
-  | "TypeError" => some .TypeError | "Exception" => some .Exception | _ => none
+  | "KeyError" => some .KeyError | "ValueError" => some .ValueError | "TypeError" => some .TypeError
+  | "AttributeError" => some .AttributeError | "OverflowError" => some .OverflowError | "RecursionError" => some .RecursionError
+  | "UnicodeDecodeError" => some .UnicodeDecodeError | "JSONDecodeError" => some .JSONDecodeError | "OSError" => some .OSError
+  | "FileNotFoundError" => some .FileNotFoundError | "ValidationError" => some .ValidationError | "AwesomeVersionException" => some .AwesomeVersionException
+  | "AwesomeVersionCompareException" => some .AwesomeVersionCompareException | "LimitOverrunError" => some .LimitOverrunError | "IncompleteReadError" => some .IncompleteReadError
+  | "CancelledError" => some .CancelledError | "MqttError" => some .MqttError | "RuntimeError" => some .RuntimeError
+  | "IndexError" => some .IndexError | "Exception" => some .Exception
+  | _ => none
 
 def parseOutcome (s : String) : Option Outcome :=
   if s = "ok" then some .ok else (parseExn s).map .raised
@@ -152,6 +160,15 @@ def step (st : TState) (line : String) : TState × String :=
     match parseOutcome a, subs.mapM parseOutcome with
     | some a, some subs => (st, match connect a subs with | .ok _ => "ok" | .error e => showMqttExn e)
     | _, _ => (st, "bad-op")
+  | "hconn" :: p :: c :: d :: subs =>
+    match decodeStr p, parseOutcome c, parseOutcome d, subs.mapM parseOutcome with
+    | some p, some c, some d, some subs =>
+      -- the k-th token is the outcome of the `_subscribe` call for the k-th filter
+      let fs := filters p
+      let r := hookConnect p c (fun f => (subs[fs.idxOf f]?).getD .ok) d
+      (st, s!"res={match r.result with | .ok => "ok" | .raised e => exnName e} cleanup={if r.cleanedUp then 1 else 0} inplace=["
+        ++ " ".intercalate (r.inPlace.map encodeStr) ++ "]")
+    | _, _, _, _ => (st, "bad-op")
   | ["tnew", "n"] => let s : TState := { task := .notStarted }; (s, showState s)
   | ["tnew", "w"] => let s : TState := { task := .waiting }; (s, showState s)
   | ["ev", "msg", t, b] =>
